@@ -103,6 +103,7 @@ type gasEnvCfg struct {
 	IR        int   `json:"inner_ring"`      // designated NeoFSAlphabet keys (0 = none designated)
 	AlphaIdx  []int64 `json:"alpha_index"`   // index argument of each deployed Alphabet contract
 	ProxyKind int   `json:"proxy_kind"`      // 0: real proxy, 1: plain account, 2: the neofs contract
+	FundAlpha int64 `json:"fund_alphabet"`   // GAS given to Alphabet contract i at setup: (i+1)*FundAlpha
 }
 
 type gasEnv struct {
@@ -228,6 +229,13 @@ func newGasEnv(t testing.TB, cfg gasEnvCfg) *gasEnv {
 		ca := contractFor(cAlpha, deployers[i].ScriptHash())
 		e.DeployContractBy(t, deployers[i], ca, []any{false, util.Uint160{1}, g.proxyAddr, fmt.Sprintf("A%d", i), idx, int64(len(cfg.AlphaIdx))})
 		g.alphabets = append(g.alphabets, ca.Hash)
+	}
+	if cfg.FundAlpha > 0 {
+		var txs []*transaction.Transaction
+		for i, a := range g.alphabets {
+			txs = append(txs, xfer(a, cfg.FundAlpha*int64(i+1), nil))
+		}
+		addBlock(txs...)
 	}
 	if cfg.IR > 0 {
 		ka := make([]any, len(g.irKeys))
@@ -1113,6 +1121,12 @@ func gasRandomCfg(r *rand.Rand, thorough bool) gasEnvCfg {
 	case 1:
 		c.ProxyKind = 2
 	}
+	if r.Intn(3) != 0 {
+		c.FundAlpha = 1 + r.Int63n(1_000_000_000_000)
+		if r.Intn(3) == 0 {
+			c.FundAlpha = 1 + r.Int63n(40)
+		}
+	}
 	return c
 }
 
@@ -1780,7 +1794,7 @@ func TestC19(t *testing.T) {
 		"non-trivial = the history contains at least one accepted GAS movement and at least one refusal/fault; " +
 		"distinct = by deployment configuration + canonical op/outcome/amount/data string"
 	thorough := Tier() == "thorough"
-	nh, minOps, maxOps := 50, 8, 18
+	nh, minOps, maxOps := 44, 8, 18
 	if thorough {
 		nh, minOps, maxOps = 400, 10, 30
 	}
